@@ -364,6 +364,16 @@ class Translator:
         if spec.elementwise and isinstance(s, ast.Expr) and isinstance(s.value, ast.Call) and ast.unparse(s.value.func).split('.')[-1].lstrip('_') in {g_.lstrip('_') for g_ in spec.skip_calls}:
             cx['notes'].append('call that recomputes derived attributes (not outputs here): %s' % ast.unparse(s.value)[:100])
             return self.block(rest, cx, tail)
+        if spec.elementwise and spec.guards and isinstance(s, ast.Assign) and len(s.targets) == 1 and isinstance(s.targets[0], ast.Name):
+            # a name that only feeds the guard call (the list of columns that must agree): not part of the arithmetic
+            gnames = {g_.lstrip('_') for g_ in spec.guards}
+            is_guard = lambda x: isinstance(x, ast.Expr) and isinstance(x.value, ast.Call) and ast.unparse(x.value.func).split('.')[-1].lstrip('_') in gnames
+            nm_ = s.targets[0].id
+            read_elsewhere = any(isinstance(x, ast.Name) and x.id == nm_ for r_ in rest if not is_guard(r_) for x in ast.walk(r_))
+            read_by_guard = any(isinstance(x, ast.Name) and x.id == nm_ for r_ in rest if is_guard(r_) for x in ast.walk(r_))
+            if read_by_guard and not read_elsewhere:
+                cx['notes'].append('argument of the guard only: %s' % ast.unparse(s)[:80])
+                return self.block(rest, cx, tail)
         if spec.elementwise and isinstance(s, ast.AugAssign) and isinstance(s.target, ast.Attribute) and isinstance(s.target.value, ast.Name) and s.target.value.id == 'self':
             op = {ast.Add: '+', ast.Sub: '-', ast.Mult: '*', ast.Div: '/'}.get(type(s.op))
             if op is None:
@@ -423,6 +433,15 @@ class Translator:
                 for e in t.elts:
                     cx['env'][e.id] = e.id
                 return 'let (%s) := %s\n%s' % (', '.join(e.id for e in t.elts), v, self.block(rest, cx, tail))
+            if cx['spec'].elementwise and isinstance(t, ast.Tuple) and all(isinstance(e, ast.Attribute) and isinstance(e.value, ast.Name) and e.value.id == 'self' for e in t.elts):
+                names = ['self_' + e.attr for e in t.elts]       # self.A, self.B = f(...)
+                for nm in names:
+                    if nm not in cx['selfattrs']:
+                        cx['selfattrs'].append(nm)
+                    cx['env'][nm] = nm
+                    if nm not in cx['assigned_self']:
+                        cx['assigned_self'].append(nm)
+                return 'let (%s) := %s\n%s' % (', '.join(names), v, self.block(rest, cx, tail))
             raise Untranslatable('assignment target')
         if isinstance(s, ast.AugAssign) and isinstance(s.target, ast.Name):
             op = {ast.Add: '+', ast.Sub: '-', ast.Mult: '*', ast.Div: '/'}.get(type(s.op))
